@@ -197,7 +197,7 @@ def run(prop, args):
     # 2. paired presentations on the real library, under the default chain and the general-only chain
     exe, px = vf.build_driver("drv_opacity", "plain")
     chk.extra["build"] = px["hash"]
-    lines, npairs = gen_pairs(rng, 6 if quick else 400)
+    lines, npairs = gen_pairs(rng, 6 if quick else 1000)
     script = os.path.join(wd, "pairs.script")
     open(script, "w").write("\n".join(lines) + "\n")
     chk.sample({"pair_script_lines": lines[:2]})
